@@ -1,5 +1,6 @@
 import Driver.Util
 import GrVerif.Model.Loader
+import GrVerif.Model.PassLoad
 namespace Driver.Loader
 open GrVerif.Loader Driver
 
@@ -43,10 +44,42 @@ def stepRanges (ws : List String) : String :=
     | _, _, _, _ => "bad-op"
   | _ => "bad-op"
 
+/-- `pass <subtable base> <pass type (unused)> <collision flags allowed: 0|1> <hex pass bytes>` : the layout part of `Pass::readPass` -/
+def stepPass (ws : List String) : String :=
+  match ws with
+  | [base, _, cok, h] =>
+    match base.toNat?, cok.toNat?, parseHexUnits 2 h with
+    | some base, some cok, some b =>
+      match readPassLayout b.toList base (cok ≠ 0) with
+      | .error _ => "fault"
+      | .ok (.error e) => s!"E{e}"
+      | .ok (.ok L) =>
+        let f := L.hdr.flags
+        let b := b.toList
+        let hd := s!"ok {L.hdr.maxLoop},{L.hdr.numRules},{L.hdr.numStates},{L.hdr.numTransition},{L.hdr.numSuccess},{L.hdr.numColumns},{L.arr.numGlyphs},{L.arr.minPre},{L.arr.maxPre},{L.arr.colThreshold},{(f / 32) % 2},{f % 8},{(f / 8) % 4}"
+        if L.hdr.numRules = 0 then hd ++ " R:- S:-" else
+        -- what follows the layout when there are rules: readRanges, (the rule records and their code: not modelled,) the rule map, readStates
+        let rs := match readRanges L.arr.numGlyphs L.hdr.numColumns ((b.drop L.arr.ranges).take (L.hdr.numRanges * 6)) L.hdr.numRanges with
+          | .error _ => "fault"
+          | .ok none => "E51"
+          | .ok (some cols) => digest cols
+        let ms := match readRuleMap b L with
+          | .error _ => "fault"
+          | .ok (.error e) => s!"E{e}"
+          | .ok (.ok es) => toString es.length
+        let ss := match readStates b L with
+          | .error _ => "fault"
+          | .ok (.error e) => s!"E{e}"
+          | .ok (.ok T) => digest (T.starts ++ T.trans ++ T.ruleRange.flatMap fun (r : Nat × Nat) => [r.1, min (r.2 - r.1) 128])
+        s!"{hd} R:{rs} S:{ss} M:{ms}"
+    | _, _, _ => "bad-op"
+  | _ => "bad-op"
+
 def step (line : String) : String :=
   match words line with
   | "sfnt" :: rest => stepSfnt rest
   | "ranges" :: rest => stepRanges rest
+  | "pass" :: rest => stepPass rest
   | _ => "bad-op"
 
 end Driver.Loader
